@@ -167,7 +167,9 @@ Inductive label :=
 | LEnvCancel                 (* the user cancels Run's context *)
 | LEmit (h : hid)            (* the subscriber hands its next message to the pump *)
 | LChanClose (h : hid)       (* the subscriber closes its channel *)
-| LFinish (m : mid)          (* the handler function returns *)
+| LFinish (m : mid)          (* the handler function returns (nil error): produced messages are published next *)
+| LFail (m : mid)            (* the handler function returns an error or panics (recovered by handleMessage):
+                                nothing is published, the message is Nacked next *)
 | LTimeout (c : cid)         (* time.After(CloseTimeout) fires *)
 | LRhCall (r : nat)          (* somebody calls RunHandlers (Run itself at start, or the user after AddHandler) *)
 | LSubCloseRet (h : hid)     (* the subscriber's Close() returns to handleClose *)
@@ -238,6 +240,11 @@ Definition step (s : state) (l : label) : option state :=
   | LFinish m =>
       match mp s m with
       | MRunning => Some (s <| mp := upd (mp s) m MPublishing |>)
+      | _ => None
+      end
+  | LFail m =>
+      match mp s m with
+      | MRunning => Some (s <| mp := upd (mp s) m MSettling |>)
       | _ => None
       end
   | LTimeout c =>
